@@ -11,7 +11,7 @@ use rand_chacha::ChaCha20Rng;
 use rand_core::RngCore;
 use serde_json::json;
 
-pub const RULE: &str = "for every data type with byte conversions (26) x 2 groups x {bytes, serde_bare, serde_json}: take honest encodings (one per variant), locate every decoder-validated point inside the encoding, and replace it by (a) on-curve points OUTSIDE the prime-order subgroup (found by scanning x with the reference's unchecked decompression; 4 quick / 8 thorough per group, both y signs), (b) x-coordinates with no curve point, (c) flag-bit variants (compression bit cleared, infinity bit with non-zero body, sort bit on infinity, x >= p, all-ones), then decode. Plus (d) every truncation length of every encoding (a strict prefix must be rejected), +1/+32 extensions (must be rejected by the exact-length types: keys, proofs of possession, commitments, scalars), all-zero scalars through every byte importer, the encodings 0, 1, r-1, r, r+1, 2r, 2r+1, 2^255, 2^256-1 through all 15 scalar importers (whatever is accepted must be non-zero), and seeded random byte strings per decoder (2k quick / 40k thorough per suite). ORACLE (independent validator): whenever a decoder returns Ok, every point re-extracted from the returned value must classify as a subgroup point under the reference's checked decompression - lenient-but-safe decoding is NOT an alarm. Share containers hold unparsed payloads: the same bad payloads are planted in SignatureShare / PublicKeyShare / SignDecryptionShare / ElGamalDecryptionShare and every combining / verifying entry point must return an error. Distinct by (suite,type,codec,mutated bytes); non-trivial = the mutated input reached a decoder's point/scalar validation (counted separately: inputs the independent validator itself classifies, and how many decoders accepted).";
+pub const RULE: &str = "for every data type with byte conversions (26) x 2 groups x {bytes, serde_bare, serde_json}: take honest encodings (one per variant), locate every decoder-validated point inside the encoding, and replace it by (a) on-curve points OUTSIDE the prime-order subgroup (found by scanning x with the reference's unchecked decompression; 4 quick / 8 thorough per group, both y signs), (b) x-coordinates with no curve point, (c) flag-bit variants (compression bit cleared, infinity bit with non-zero body, sort bit on infinity, x >= p, all-ones), then decode. Plus (d) every truncation length of every encoding (a strict prefix must be rejected), +1/+32 extensions (must be rejected by the exact-length types: keys, proofs of possession, commitments, scalars), all-zero scalars through every byte importer, the encodings 0, 1, r-1, r, r+1, 2r, 2r+1, 2^255, 2^256-1 through all 15 scalar importers (whatever is accepted must be non-zero), and seeded random byte strings per decoder (2k quick / 40k thorough per suite). ORACLE (independent validator): whenever a decoder returns Ok, every point re-extracted from the returned value must classify as a subgroup point under the reference's checked decompression - lenient-but-safe decoding is NOT an alarm. Share containers hold unparsed payloads: the same bad payloads are planted in SignatureShare / PublicKeyShare / SignDecryptionShare / ElGamalDecryptionShare and every combining / verifying entry point must return an error. Distinct by (suite,type,codec,mutated bytes); non-trivial = the mutated input reached a decoder's point/scalar validation (counted separately: inputs the independent validator itself classifies, and how many decoders accepted). Sibling payloads: for every share type a point outside the subgroup whose encoding shares its first (resp. last) half with a valid payload is presented directly after that valid payload - as a further share in the same call, in the next call, and to the share verifier - and must be refused each time (validation at every use, whatever was validated before).";
 
 pub fn run(ctx: &mut Ctx) {
     for_both!(run_suite, ctx);
@@ -324,6 +324,70 @@ fn shares<C: Suite>(ctx: &mut Ctx, env: &Env<C>, bad_sig: &[(String, Vec<u8>)], 
             let r = ctx.guard("ElGamalDecryptionKey::from_shares", || json!({"bad":bk}), || ElGamalDecryptionKey::<C>::from_shares(&set).is_ok());
             ctx.expect(r == Some(false), &format!("C16/invalid-share-payload-accepted/{n}/ElGamalDecryptionKey::from_shares"), || json!({"payload_class":bk,"payload":hex::encode(b),"position":pos}));
             ctx.hit(&format!("{n}/shares/ElGamalDecryptionKey::from_shares"), &[bk.as_bytes(), pos.as_bytes()]);
+        }
+    }
+    // siblings: a point outside the subgroup whose encoding shares its first (or last) half with a
+    // VALID payload, presented directly after that valid payload was decoded - in the same call
+    // (as a further share) and in the next call. Validation happens at every use.
+    for keep_prefix in [true, false] {
+        let kn = if keep_prefix { "sibling-same-first-half" } else { "sibling-same-last-half" };
+        let (_, sp) = sig_share_parts::<C>(&good_sig[1]);
+        if let Some(b) = refimpl::non_subgroup_sibling::<RSig<C>>(&sp, keep_prefix) {
+            let bad = wrap_sig_share::<C>(Scheme::Basic, sig_share_raw::<C>(3, &b));
+            let same_call = vec![good_sig[0], good_sig[1], bad];
+            let r = ctx.guard("Signature::from_shares", || json!({"bad":kn}), || Signature::<C>::from_shares(&same_call).is_ok());
+            ctx.expect(r == Some(false), &format!("C16/invalid-share-payload-accepted/{n}/Signature::from_shares"), || json!({"what":"share combination accepted a payload outside the subgroup directly after its valid sibling","payload_class":kn,"payload":hex::encode(&b),"valid_sibling":hex::encode(&sp),"sequence":"one call: [good, sibling, bad]"}));
+            let next_call = vec![bad, good_sig[0]];
+            let r = ctx.guard("Signature::from_shares", || json!({"bad":kn}), || (Signature::<C>::from_shares(&good_sig[..2]).is_ok(), Signature::<C>::from_shares(&next_call).is_ok()));
+            ctx.expect(r == Some((true, false)), &format!("C16/invalid-share-payload-accepted/{n}/Signature::from_shares"), || json!({"payload_class":kn,"payload":hex::encode(&b),"valid_sibling":hex::encode(&sp),"sequence":"two calls: [good, sibling] then [bad, good]","answers":format!("{r:?}")}));
+            let r = ctx.guard("PublicKeyShare::verify", || json!({"bad":kn}), || (env.pk_shares[1].verify(&good_sig[1], msg).is_ok(), env.pk_shares[1].verify(&bad, msg).is_ok()));
+            ctx.expect(r == Some((true, false)), &format!("C16/invalid-share-payload-accepted/{n}/PublicKeyShare::verify(sig)"), || json!({"payload_class":kn,"payload":hex::encode(&b),"answers":format!("{r:?}")}));
+            ctx.hit(&format!("{n}/shares/Signature::from_shares"), &[kn.as_bytes()]);
+        } else {
+            ctx.harness_error("no sibling point found (signature share)".into());
+        }
+        let (_, pp) = pk_share_parts::<C>(&env.pk_shares[1]);
+        if let Some(b) = refimpl::non_subgroup_sibling::<RPk<C>>(&pp, keep_prefix) {
+            let bad = PublicKeyShare::<C>(pk_share_raw::<C>(3, &b));
+            let same_call = vec![env.pk_shares[0], env.pk_shares[1], bad];
+            let r = ctx.guard("PublicKey::from_shares", || json!({"bad":kn}), || PublicKey::<C>::from_shares(&same_call).is_ok());
+            ctx.expect(r == Some(false), &format!("C16/invalid-share-payload-accepted/{n}/PublicKey::from_shares"), || json!({"payload_class":kn,"payload":hex::encode(&b),"valid_sibling":hex::encode(&pp),"sequence":"one call: [good, sibling, bad]"}));
+            let next_call = vec![bad, env.pk_shares[0]];
+            let r = ctx.guard("PublicKey::from_shares", || json!({"bad":kn}), || (PublicKey::<C>::from_shares(&env.pk_shares[..2]).is_ok(), PublicKey::<C>::from_shares(&next_call).is_ok()));
+            ctx.expect(r == Some((true, false)), &format!("C16/invalid-share-payload-accepted/{n}/PublicKey::from_shares"), || json!({"payload_class":kn,"payload":hex::encode(&b),"sequence":"two calls","answers":format!("{r:?}")}));
+            let r = ctx.guard("PublicKeyShare::verify", || json!({"bad":kn}), || (env.pk_shares[1].verify(&good_sig[1], msg).is_ok(), bad.verify(&good_sig[1], msg).is_ok()));
+            ctx.expect(r == Some((true, false)), &format!("C16/invalid-share-payload-accepted/{n}/PublicKeyShare::verify(pk)"), || json!({"payload_class":kn,"payload":hex::encode(&b),"answers":format!("{r:?}")}));
+            ctx.hit(&format!("{n}/shares/PublicKey::from_shares"), &[kn.as_bytes()]);
+        } else {
+            ctx.harness_error("no sibling point found (public-key share)".into());
+        }
+        let dsp = Vec::from(&good_ds[1])[1..].to_vec();
+        if let Some(b) = refimpl::non_subgroup_sibling::<RPk<C>>(&dsp, keep_prefix) {
+            let bad = SignDecryptionShare::<C>(pk_share_raw::<C>(3, &b));
+            let same_call = vec![good_ds[0].clone(), good_ds[1].clone(), bad.clone()];
+            let r = ctx.guard("SignCryptDecryptionKey::from_shares", || json!({"bad":kn}), || SignCryptDecryptionKey::<C>::from_shares(&same_call).is_ok());
+            ctx.expect(r == Some(false), &format!("C16/invalid-share-payload-accepted/{n}/SignCryptDecryptionKey::from_shares"), || json!({"payload_class":kn,"payload":hex::encode(&b),"valid_sibling":hex::encode(&dsp),"sequence":"one call: [good, sibling, bad]"}));
+            let next_call = vec![bad.clone(), good_ds[0].clone()];
+            let r = ctx.guard("SignCryptDecryptionKey::from_shares", || json!({"bad":kn}), || (SignCryptDecryptionKey::<C>::from_shares(&good_ds[..2]).is_ok(), SignCryptDecryptionKey::<C>::from_shares(&next_call).is_ok()));
+            ctx.expect(r == Some((true, false)), &format!("C16/invalid-share-payload-accepted/{n}/SignCryptDecryptionKey::from_shares"), || json!({"payload_class":kn,"payload":hex::encode(&b),"sequence":"two calls","answers":format!("{r:?}")}));
+            let r = ctx.guard("SignDecryptionShare::verify", || json!({"bad":kn}), || (good_ds[1].verify(&env.pk_shares[1], &ct).is_ok(), bad.verify(&env.pk_shares[1], &ct).is_ok()));
+            ctx.expect(r == Some((true, false)), &format!("C16/invalid-share-payload-accepted/{n}/SignDecryptionShare::verify(share)"), || json!({"payload_class":kn,"payload":hex::encode(&b),"answers":format!("{r:?}")}));
+            ctx.hit(&format!("{n}/shares/SignCryptDecryptionKey::from_shares"), &[kn.as_bytes()]);
+        } else {
+            ctx.harness_error("no sibling point found (decryption share)".into());
+        }
+        let egp = Vec::from(&good_eg[1])[1..].to_vec();
+        if let Some(b) = refimpl::non_subgroup_sibling::<RPk<C>>(&egp, keep_prefix) {
+            let bad = ElGamalDecryptionShare::<C>(pk_share_raw::<C>(3, &b));
+            let same_call = vec![good_eg[0].clone(), good_eg[1].clone(), bad.clone()];
+            let r = ctx.guard("ElGamalDecryptionKey::from_shares", || json!({"bad":kn}), || ElGamalDecryptionKey::<C>::from_shares(&same_call).is_ok());
+            ctx.expect(r == Some(false), &format!("C16/invalid-share-payload-accepted/{n}/ElGamalDecryptionKey::from_shares"), || json!({"payload_class":kn,"payload":hex::encode(&b),"valid_sibling":hex::encode(&egp),"sequence":"one call: [good, sibling, bad]"}));
+            let next_call = vec![bad, good_eg[0].clone()];
+            let r = ctx.guard("ElGamalDecryptionKey::from_shares", || json!({"bad":kn}), || (ElGamalDecryptionKey::<C>::from_shares(&good_eg[..2]).is_ok(), ElGamalDecryptionKey::<C>::from_shares(&next_call).is_ok()));
+            ctx.expect(r == Some((true, false)), &format!("C16/invalid-share-payload-accepted/{n}/ElGamalDecryptionKey::from_shares"), || json!({"payload_class":kn,"payload":hex::encode(&b),"sequence":"two calls","answers":format!("{r:?}")}));
+            ctx.hit(&format!("{n}/shares/ElGamalDecryptionKey::from_shares"), &[kn.as_bytes()]);
+        } else {
+            ctx.harness_error("no sibling point found (ElGamal decryption share)".into());
         }
     }
     ctx.sample(&format!("{n}/shares/Signature::from_shares"), || json!({"bad_payload_classes": bad_sig.iter().map(|(k,_)| k.clone()).collect::<Vec<_>>() }));
